@@ -18,7 +18,7 @@ pub struct Hooks {
     ///
     /// `op` is one of `read`, `scan`, `write`. `id` is `None` for whole-map scans.
     pub access: fn(op: &'static str, ty: &'static str, id: Option<&dyn Debug>),
-    /// Something noteworthy happened to an item: `miss`, `restored`, `nop-write`.
+    /// Something noteworthy happened to an item: `get`, `miss`, `restored`, `nop-write`.
     pub note: fn(what: &'static str, ty: &'static str, id: &dyn Debug),
     /// An effective write to `id` just finished.
     pub wrote: fn(ty: &'static str, id: &dyn Debug),
